@@ -200,7 +200,7 @@ def find_json(out_lines):
         pos = i + 1
 
 
-def judge_json(out_lines, o):
+def judge_json(out_lines, o, ver=None, any_field_order=False):
     probs = []
     pairs, why = find_json(out_lines)
     if pairs is None:
@@ -208,15 +208,24 @@ def judge_json(out_lines, o):
     doc = dict(pairs)
     keys = [k for k, _ in pairs]
     want = json.loads(json.dumps(o.as_json(sort=True, minimal=True)))
+    full = json.loads(json.dumps(o.as_json(sort=True, minimal=False)))
+    if any_field_order and ver and isinstance(doc.get("vectorString"), str):
+        # interactive entry: the vector string is whatever the builder returned; the field ORDER
+        # of that string is not fixed by any property, only its fields are
+        vs = doc["vectorString"]
+        if T.classify(ver, vs) == T.ACCEPT and T.classify(ver, want["vectorString"]) == T.ACCEPT and \
+                T.canon_key(ver, vs) == T.canon_key(ver, want["vectorString"]) and \
+                sorted(T.parse(ver, vs)[1]) == sorted(T.parse(ver, want["vectorString"])[1]):
+            want["vectorString"] = vs
+            full["vectorString"] = vs
     if doc != want:
-        full = json.loads(json.dumps(o.as_json(sort=True, minimal=False)))
         probs.append(("json", "json-is-the-non-minimal-document" if doc == full else "json-differs-from-sorted-minimal-as_json"))
     if keys != sorted(keys):
         probs.append(("json", "json-keys-not-ascending"))
     return probs
 
 
-def judge_report(out_lines, ver, o, want_json):
+def judge_report(out_lines, ver, o, want_json, any_field_order=False):
     """Problems of a result section against object o.  The property fixes WHAT is printed
     (scores with ratings, cleaned vector, Red Hat vector, JSON), not labels, padding or
     additional lines: two readings are tried -- by the labels in use at the pinned commit,
@@ -228,7 +237,7 @@ def judge_report(out_lines, ver, o, want_json):
         if not b:
             a = []
     if want_json:
-        a = a + judge_json(out_lines, o)
+        a = a + judge_json(out_lines, o, ver, any_field_order)
     return a
 
 
@@ -356,7 +365,7 @@ def judge(P, argv, answers, r, mode):
                         for o_ in done:
                             s = T.spell(DLG.PREFIX_OF[vt], list(o_[0]))
                             ok, o = obs.call(L.CLS[ver], s)
-                            pr = judge_report(out_lines, ver, o, want_json) if ok else [("interactive", "model-vector-rejected")]
+                            pr = judge_report(out_lines, ver, o, want_json, True) if ok else [("interactive", "model-vector-rejected")]
                             if best is None or len(pr) < len(best):
                                 best = pr
                         probs = best
